@@ -373,6 +373,50 @@ theorem derived_agrees_bare_root (bitsOf : R → Nat) (resolve : Nat → Out (Of
       nodeOf (nodeVal none kids count ⟨none, none, none⟩ : Prim R) := by
   rw [derived_bare_root bitsOf resolve kids count hc, nodeOf_nodeVal none kids count _ (by decide)]
 
+/-- **`DerivedAgrees` discharged for attribute-free trees**: on every object of a written tree whose nodes carry no
+    inheritable attribute, the generated readers of `PageTree` and `Page` behind the /Type dispatch — every /Parent chain
+    loaded through the resolver of the opened file, one tower level per ancestor — yield the node `nodeOf` yields. The only
+    hypothesis is `DefaultZeroEvaluates` (the literal default `"0"` of `Page.rotate` evaluates: a fact about the model's
+    string functions that the kernel cannot reduce). -/
+theorem derived_agrees_attr_free_bytes (bitsOf : R → Nat) (hdf : DefaultZeroEvaluates)
+    (resolve : Nat → Out (Offsets.Obj (Prim R))) (t : PTree) (hn : isNode t = true) (hf : attrFree t = true)
+    (hh : height t ≤ 16) (hres : ∀ q ∈ (objsOf none t : List (Nat × Prim R)), resolve q.1 = .ok (.plain q.2)) :
+    DerivedAgrees bitsOf resolve t :=
+  derived_agrees_attr_free bitsOf resolve hdf t hn hf (by omega) hres
+
+/-- **Page i of the written file is the i-th leaf — from the bytes, with the generated readers, for attribute-free
+    trees**: no hypothesis about the reader is left except `DefaultZeroEvaluates`. -/
+theorem page_nth_bytes_partial3 (bitsOf : R → Nat) (hdf : DefaultZeroEvaluates) (fmt : R → List UInt8) (env : Env R)
+    (hd : env.decrypt = none) (pfuel : Nat) (dec : Dict R → List UInt8 → Out (List UInt8)) (hdec : NoFilter dec) (id : Nat)
+    (a : Attrs) (ks : List PTree) (n : Nat) (hn : n ≤ 1000000) (hnd : (idsOf (.node id a ks)).Nodup)
+    (hrange : ∀ x ∈ idsOf (.node id a ks), 1 ≤ x ∧ x ≤ n) (hfree : attrFree (.node id a ks) = true)
+    (hh : height (.node id a ks) ≤ 16) (hc : nLeaves (.node id a ks) ≤ 2147483647)
+    (bytes : List UInt8) (hw : writeDoc fmt (.node id a ks) n = .ok bytes)
+    (hsmall : bytes.length ≤ fileMax) (hpf : 3 * bytes.length ≤ pfuel) (rfuel lfuel : Nat) (hl : 16 < lfuel) (i : Nat) :
+    getPageBD bitsOf env pfuel dec 2 (rfuel + 2) lfuel bytes i =
+      (if h : i < (leavesOf (.node id a ks)).length then .ok ((leavesOf (.node id a ks))[i]) else .err) ∧
+    numPagesBD bitsOf env pfuel dec 2 (rfuel + 2) lfuel bytes = .ok (leavesOf (.node id a ks)).length := by
+  have hm : markersOK (.node id a ks) = true := markersOK_of_attrFree _ hfree
+  refine page_nth_bytes_partial2 bitsOf fmt env hd pfuel dec hdec id a ks n hn hnd hrange hm hh hc bytes hw hsmall hpf rfuel lfuel hl ?_ i
+  intro tb T hopen
+  -- the objects of the written file resolve to their bodies
+  obtain ⟨b', inf, hs, rfl⟩ : ∃ b' inf, saveB fmt true (preparedDoc fmt (.node id a ks) n) = (b', .ok inf) ∧ b'.bytes = bytes := by
+    unfold writeDoc at hw
+    cases hsv : saveB fmt true (preparedDoc fmt (.node id a ks) n) with
+    | mk b' r =>
+      rw [hsv] at hw
+      cases r with
+      | ok inf => simp only [Out.ok.injEq] at hw; exact ⟨b', inf, rfl, hw⟩
+      | err => cases hw
+      | panic => cases hw
+      | oof => cases hw
+  obtain ⟨tb', T', hopen', _, _, hobjs⟩ := written_objects fmt env hd pfuel dec hdec (.node id a ks) n hn hnd hrange hm hc
+    b' inf hs hsmall hpf rfuel
+  rw [hopen] at hopen'
+  simp only [Out.ok.injEq, Prod.mk.injEq, true_and] at hopen'
+  obtain ⟨rfl, _⟩ := hopen'
+  exact derived_agrees_attr_free_bytes bitsOf hdf _ (.node id a ks) rfl hfree hh hobjs
+
 /-! ### non-vacuity at byte level: a document is written, its bytes are opened, its pages are found -/
 
 /-- root 3 (media box 11, resources 5) with leaf 1 (crop box 12) and node 2 with leaf 4 (media box 13): objects numbered
